@@ -207,6 +207,7 @@ type Instance struct {
 	ExprNode ast.Node
 	Data     map[string]data.Map
 	IJ       data.Map      // nil = none
+	Globals  data.Map      // the globals map the caller gave to AddGlobalsMap (nil: none)
 	NoMsgs   bool          // render without a catalogue
 	Msgs     soymsg.Bundle // when set: the catalogue given to renders and JS generation instead of Cat
 }
@@ -221,6 +222,10 @@ type Inputs struct {
 	// map under such a name gets that same data.Map (a nested map shared by
 	// different top-level maps).
 	Shared map[string]core.V `json:"shared,omitempty"`
+	// Globals: compile-time globals (AddGlobalsMap). The map the caller hands in
+	// stays the caller's; map- and list-valued globals are reference values that
+	// belong to the compiled bundle.
+	Globals map[string]core.V `json:"globals,omitempty"`
 	// PO / Locale: render with a REAL message bundle, pomsg.Load of these .po
 	// texts (locale -> text), bundle of Locale, instead of the identity catalogue
 	PO     map[string]string `json:"po,omitempty"`
@@ -229,11 +234,15 @@ type Inputs struct {
 
 // NewInstance compiles the files and builds the caller's values afresh.
 func NewInstance(in *Inputs) (*Instance, error) {
-	comp, err, _ := core.Compile(in.Files, nil)
+	var globals data.Map
+	if len(in.Globals) > 0 {
+		globals = core.ToDataMap(in.Globals)
+	}
+	comp, err, _ := core.Compile(in.Files, globals)
 	if err != nil {
 		return nil, err
 	}
-	inst := &Instance{Comp: comp, Data: map[string]data.Map{}}
+	inst := &Instance{Comp: comp, Data: map[string]data.Map{}, Globals: globals}
 	for k, m := range in.Data {
 		inst.Data[k] = core.ToDataMap(m)
 	}
@@ -306,6 +315,9 @@ func (in *Instance) CallerRoots() []Root {
 		r = append(r, Root{"data[" + k + "]", &m})
 	}
 	r = append(r, Root{"ij", &in.IJ}, Root{"msgs", in.Cat})
+	if in.Globals != nil {
+		r = append(r, Root{"globals", &in.Globals})
+	}
 	if in.Msgs != nil {
 		r = append(r, Root{"pomsgs", in.Msgs})
 	}
